@@ -412,8 +412,18 @@ fn run_case_inner(steps: &[CStep], with_disk: bool, with_cache: bool, local: &mu
         }
         let (wm2, rm2) = (StockMem::with_page_size(4096), StockMem::with_page_size(4096));
         compare("stock-memory/cache-tiny", &reference, &run_config(&wm2, &rm2, CacheCfg::Tiny, steps)?, true)?;
+        // one of the rarer legal cache configurations per history
+        let (extra, name) = match hash_of(&steps) % 4 {
+            0 => (CacheCfg::Zero, "memfiles/cache-capacity-0"),
+            1 => (CacheCfg::One, "memfiles/cache-capacity-1-node"),
+            2 => (CacheCfg::TtlOnly, "memfiles/cache-time-to-live-only"),
+            _ => (CacheCfg::TtiOnly, "memfiles/cache-time-to-idle-only"),
+        };
+        let (w3, r3) = (Disk::new(), Disk::new());
+        compare(name, &reference, &run_config(&w3, &r3, extra, steps)?, true)?;
+        local.class(&format!("extra_cache_configuration:{}", &name[9..]));
         local.class("histories_with_cache_configurations");
-        local.class_n("configurations_compared", 3);
+        local.class_n("configurations_compared", 4);
     }
     if std::env::var("HCV_TIMING").is_ok() {
         local.class_n("micros_cache_configs", t1.elapsed().as_micros() as u64);
@@ -489,7 +499,7 @@ pub fn run(ctx: &Ctx) {
         "cases = histories of writer ops (append, batch, clear, get, has, info, reopen) and replication steps (requests built from \
          the replica's own answers, proof application, replica reopen, replica reads) with one fixed key pair. Every history runs on: \
          instrumented memory backend (reference), journaled instrumented backend, the crate's stock in-memory backend, each cache \
-         configuration (off / default / capacity of 3 nodes), and - in the disk stage - the stock disk backend in a scratch directory \
+         configuration (off / default / capacity of 3 nodes, plus one of capacity 0 / capacity of 1 node / time-to-live only / time-to-idle only per history), and - in the disk stage - the stock disk backend in a scratch directory \
          (this build: sparse hole punching ON; thorough also runs a build without the `sparse` feature). All results of every step \
          (values, Ok/Err class, complete proofs, missing_nodes-derived requests, infos) must be equal and the four files of writer \
          and replica must be byte-identical when read back through the backend (punched holes read as zeros). An enumerated stage asks a writer of 1..10 blocks (and its \
